@@ -121,9 +121,9 @@ def main(tier="quick", seed=0):
     for e in ENTRIES.values():
         k = per_cost[e.cost]
         pick = [scenarios[int(i)] for i in rng.choice(len(scenarios), size=min(k, len(scenarios)), replace=False)]
-        pick += big_scenarios(rng, max(2, k // 3))
+        pick += [dict(x, mode="none", S=[]) for x in pc.random_scenarios(rng, max(2, k // 3), 5, 9)]
         for n_, sc in enumerate(pick):
-            jobs.append((e.name, sc, int(rng.integers(0, 1000)), n_ % 2))
+            jobs.append((e.name, sc, int(rng.integers(0, 1000)), n_ % 3))
     traces = pmap(_job, jobs, chunksize=2)
     chk.count(len(traces))
     for tr in traces:
